@@ -48,11 +48,14 @@ KIND = {
     'unknownfn': F.call('SUM', N('1'), F.call('NOSUCHFN', N('2'))),
     'hostexc': F.binop('+', N('1'), F.call('BOOM', N('2'))),
     'listenerexc': F.binop('+', F.var('vraise'), N('1')),
+    'cellexc': F.binop('+', F.cell('A1'), N('1')),            # with the cell listener raising (this time only)
+    'rangeexc': F.call('SUM', F.rng('B1', 'C2'), F.cell('A1')),   # with the range listener raising
+    'fnlistenerexc': F.call('SUM', F.call('K'), N('1')),      # with the callFunction listener raising for K
     'xlraise': F.binop('+', N('1'), F.call('XLR')),
     'trapped': F.call('IFERROR', F.call('SUM', F.binop('/', N('1'), N('0'))), F.var('va')),
     'empty': {'raw': ''},
 }
-PROBES = [KIND['ok'], KIND['okcells'], KIND['trapped'], KIND['divzero'], KIND['unknownvar'], KIND['syntax'],
+PROBES = [KIND['ok'], KIND['okcells'], KIND['cellexc'], KIND['rangeexc'], KIND['fnlistenerexc'], KIND['trapped'], KIND['divzero'], KIND['unknownvar'], KIND['syntax'],
           F.binop('&', F.var('vb'), F.call('K')), F.call('SUM', F.var('vl'), F.cell('B2')), KIND['xlraise']]
 
 
@@ -79,6 +82,10 @@ class Long(object):
         self.ev.append({'e': 'listen', 'p': 'p1', 'kind': 'cell', 'sets': self.env['cellsets']})
         self.ev.append({'e': 'listen', 'p': 'p1', 'kind': 'raises', 'sets': self.env['raises']})
 
+    def set_raises(self, tags):
+        self.h.raises = set(tags)
+        self.ev.append({'e': 'listen', 'p': 'p1', 'kind': 'raises', 'sets': list(tags)})
+
     def parse(self, f, solo=None):
         text = f['raw'] if 'raw' in f else F.render(f)
         with quiet():
@@ -93,17 +100,29 @@ class Long(object):
         return o
 
 
-def solo_outcome(lib, f, debug, cache={}):
-    key = (json.dumps(f, sort_keys=True), debug)
+TRANSIENT = {'cellexc': ['cell:*'], 'rangeexc': ['range:*'], 'fnlistenerexc': ['fn:K']}
+BASE_RAISES = ['var:vraise']
+
+
+def solo_outcome(lib, f, debug, raises=(), cache={}):
+    key = (json.dumps(f, sort_keys=True), debug, tuple(raises))
     if key not in cache:
-        cache[key] = Long(lib, debug).parse(f)['out']
+        L = Long(lib, debug)
+        if raises:
+            L.set_raises(BASE_RAISES + list(raises))
+        cache[key] = L.parse(f)['out']
     return cache[key]
 
 
 def replay_history(lib, tid, kinds, debug):
     L = Long(lib, debug)
     for k in kinds:
-        L.parse(KIND[k], solo_outcome(lib, KIND[k], not debug))
+        extra = TRANSIENT.get(k, [])
+        if extra:      # a listener that fails this time only: the host's binding changes, then changes back
+            L.set_raises(BASE_RAISES + extra)
+        L.parse(KIND[k], solo_outcome(lib, KIND[k], not debug, extra))
+        if extra:
+            L.set_raises(BASE_RAISES)
     for f in PROBES:
         L.parse(f, solo_outcome(lib, f, not debug))
     return {'tid': tid, 'ev': L.ev, 'case': {'history': kinds, 'debug': debug}}
@@ -185,13 +204,15 @@ def census_obs(lib, quick):
     for k, f in sorted(KIND.items()):
         for debug in (False, True):
             L = Long(lib, debug)
+            if k in TRANSIENT:
+                L.set_raises(BASE_RAISES + TRANSIENT[k])
             text = f['raw'] if 'raw' in f else F.render(f)
             series = []
             done = 0
             for target in (base, 2 * base, 4 * base, 8 * base):
                 with quiet():
                     while done < target:
-                        L.h.p.parse(text)
+                        L.h.parse(text)
                         done += 1
                 series.append(census())
             obs.append({'kind': 'census', 'formula': text, 'debug': debug, 'n': base, 'series': series,
